@@ -273,6 +273,15 @@ class MaskEngine:
                     t = ty_of(self.f, fn["locals"][i][0])
                     if t is not None and t.bits == 32 and not t.signed:
                         s.add(i)
+            if not s and fn["item"] in ("set_cond", "select", "cswap", "set_condneg", "set_condzeta"):
+                # the conditional-copy family: the unique by-value u32 parameter is the control word whatever its name
+                cand = []
+                for i in range(1, fn["argc"] + 1):
+                    t = ty_of(self.f, fn["locals"][i][0])
+                    if t is not None and t.bits == 32 and not t.signed and self.f.ty(fn["locals"][i][0]).get("k") == "uint":
+                        cand.append(i)
+                if len(cand) == 1:
+                    s.add(cand[0])
             ctl[fn["id"]] = s
         changed = True
         rounds = 0
